@@ -21,7 +21,7 @@ const R0: i64 = 1_700_000_000_000_000_000;
 const M0: i64 = 5_000_000_000_000;
 const SEC: i64 = 1_000_000_000;
 
-static CHRONY_MODE: AtomicU8 = AtomicU8::new(0); // 0 answers at once, 1 absent (the request fails at once), 2 wedged (socket present, never replies)
+static CHRONY_MODE: AtomicU8 = AtomicU8::new(0); // 0 answers at once, 1 absent (the request fails at once), 2 wedged (socket present, never replies), 3 slow (answers the first retransmission: 1.3 x the client's timeout)
 static LAST_QUERY_NS: AtomicI64 = AtomicI64::new(0);
 static SHM_PATH: Mutex<Option<PathBuf>> = Mutex::new(None);
 
@@ -36,12 +36,14 @@ fn chrony_hook(_r: RequestBody, o: ClientOptions) -> std::io::Result<Reply> {
     let lat: i64 = if mode == 2 {
         let tries: i64 = if o.n_tries == 0 { 65_536 } else { o.n_tries as i64 };
         tries.saturating_mul(o.timeout.as_nanos().min(i64::MAX as u128 / 70_000) as i64)
+    } else if mode == 3 {
+        (o.timeout.as_nanos().min(i64::MAX as u128 / 4) as i64).saturating_mul(13) / 10
     } else {
         0
     };
     LAST_QUERY_NS.fetch_max(lat, Ordering::SeqCst);
     vclock::global_advance(lat);
-    let res = if mode != 0 {
+    let res = if mode == 1 || mode == 2 {
         Err(std::io::Error::new(std::io::ErrorKind::TimedOut, "verif: chronyd does not answer"))
     } else {
         let spec = TrackSpec { ref_id: 0, leap: 0, ref_time_ns: R0 as i128, offset_bits: encode_float(0.001), delay_bits: encode_float(0.01), disp_bits: encode_float(0.01), interval_bits: encode_float(16.0) };
@@ -107,7 +109,7 @@ struct Scenario {
 impl Scenario {
     fn json(&self) -> Value {
         json!({"fault": self.fault.map(|f| json!({"thread": (["main", "poller", "writer"][f.thread.min(2)]), "opportunity": f.at, "kind": format!("{:?}", f.kind)})), "segment_uncreatable": self.startup_failure,
-               "chronyd": (["answers", "absent", "wedged"][self.chrony_mode.min(2) as usize]), "abort_broadcast_reversed": self.reverse_keys, "unfair_timeouts_allowed": self.unfair_budget})
+               "chronyd": (["answers", "absent", "wedged", "slow"][self.chrony_mode.min(3) as usize]), "abort_broadcast_reversed": self.reverse_keys, "unfair_timeouts_allowed": self.unfair_budget})
     }
     fn from_json(v: &Value) -> Scenario {
         let fault = if v["fault"].is_null() {
@@ -115,7 +117,7 @@ impl Scenario {
         } else {
             Some(Fault { thread: if v["fault"]["thread"] == "poller" { 1 } else { 2 }, at: v["fault"]["opportunity"].as_u64().unwrap() as usize, kind: if v["fault"]["kind"] == "Panic" { FaultKind::Panic } else { FaultKind::Return } })
         };
-        Scenario { fault, startup_failure: v["segment_uncreatable"].as_bool().unwrap_or(false), chrony_mode: match v["chronyd"].as_str() { Some("absent") => 1, Some("wedged") => 2, _ => 0 }, reverse_keys: v["abort_broadcast_reversed"].as_bool().unwrap_or(false), unfair_budget: v["unfair_timeouts_allowed"].as_u64().unwrap_or(0) as usize }
+        Scenario { fault, startup_failure: v["segment_uncreatable"].as_bool().unwrap_or(false), chrony_mode: match v["chronyd"].as_str() { Some("absent") => 1, Some("wedged") => 2, Some("slow") => 3, _ => 0 }, reverse_keys: v["abort_broadcast_reversed"].as_bool().unwrap_or(false), unfair_budget: v["unfair_timeouts_allowed"].as_u64().unwrap_or(0) as usize }
     }
 }
 
@@ -129,7 +131,7 @@ struct Exec {
 
 fn run_once(sc: &Scenario, prefix: Vec<usize>, dir: &Path, horizon_iters: i64, log: bool) -> Exec {
     // a wedged chronyd holds every request for 3 s with the library's default options
-    let per_iter = if sc.chrony_mode == 2 { 4 * SEC } else { SEC };
+    let per_iter = match sc.chrony_mode { 2 => 4 * SEC, 3 => 3 * SEC, _ => SEC };
     run_once_h(sc, prefix, dir, M0 + (horizon_iters + 12) * per_iter, log)
 }
 
@@ -258,7 +260,7 @@ fn judge(sc: &Scenario, e: &Exec, tally: &mut Tally) {
     }
     // "within a few seconds": the poll period, one request in progress (at most the 3 x 1 s the
     // library's default options allow against a chronyd that never replies) and the join
-    let limit = (4 + sc.unfair_budget as i64) * SEC + if sc.chrony_mode == 2 { 2 * 3 * SEC } else { 0 };
+    let limit = (4 + sc.unfair_budget as i64) * SEC + match sc.chrony_mode { 2 => 2 * 3 * SEC, 3 => 2 * 2 * SEC, _ => 0 };
     if (e.rep.horizon_hit || !e.returned) && e.latency_ns.unwrap_or(i64::MAX) <= limit {
         // the execution was cut before the time allowed for the exit had passed: nothing to judge
         tally.judged -= 1;
@@ -321,7 +323,7 @@ fn install() {
 }
 
 pub fn run(ctx: &Ctx) -> i32 {
-    std::panic::set_hook(Box::new(|_| {}));
+    crate::common::report::quiet_panics();
     install();
     let base = ctx.scratch();
     if let Some(p) = &ctx.replay {
@@ -349,16 +351,16 @@ pub fn run(ctx: &Ctx) -> i32 {
     // probe: fault-free default schedule, to enumerate each worker's fault opportunities
     let mut scenarios: Vec<Scenario> = vec![];
     let mut opp_catalogue = json!({});
-    for mode in [0u8, 1, 2] {
+    for mode in [0u8, 1, 2, 3] {
         let probe_sc = Scenario { fault: None, startup_failure: false, chrony_mode: mode, reverse_keys: false, unfair_budget: 0 };
         // the probe runs the first h+1 poller iterations only: faults are placed inside that window
-        let probe = run_once_h(&probe_sc, vec![], &base, M0 + h * (if mode == 2 { 4 * SEC } else { SEC }) + SEC / 2, false);
+        let probe = run_once_h(&probe_sc, vec![], &base, M0 + h * (match mode { 2 => 4 * SEC, 3 => 3 * SEC, _ => SEC }) + SEC / 2, false);
         if !probe.rep.horizon_hit {
             machinery_failure("the fault-free daemon stopped by itself in the probe run");
         }
         for t in [1usize, 2] {
             let labels = probe.rep.opp_labels.get(t).cloned().unwrap_or_default();
-            opp_catalogue[format!("{} (chronyd {})", if t == 1 { "poller" } else { "writer" }, ["answers", "absent", "wedged"][mode as usize])] = json!(labels);
+            opp_catalogue[format!("{} (chronyd {})", if t == 1 { "poller" } else { "writer" }, ["answers", "absent", "wedged", "slow"][mode as usize])] = json!(labels);
             for (k, l) in labels.iter().enumerate() {
                 for kind in [FaultKind::Panic, FaultKind::Return] {
                     if kind == FaultKind::Return && !l.contains("return") {
